@@ -3,8 +3,10 @@ package c15
 
 import (
 	"fmt"
+	"github.com/irai/packet/fastlog"
 	"math/rand"
 	"net/netip"
+	"strconv"
 	"strings"
 	"sync"
 
@@ -135,6 +137,71 @@ func Eval(c *core.Ctx, line string) *core.Case {
 			Oracle: func() (string, string) {
 				if zero && !v4 {
 					return "frame emitted by icmp4SendPacket: ICMP or IPv4 header checksum does not verify", ""
+				}
+				return "", ""
+			}}
+	case "send":
+		// send <echo4|echo6|na|ns> <debug|info|error> <id> <seq> <dst16>: the EXPORTED send function at that log level;
+		// the emitted frame's IPv4 header / ICMP checksums must verify under the independent RFC 1071 (with the IPv6
+		// pseudo header).  A frame must not depend on the log level (statements inside `if Logger.IsDebug()` run at debug).
+		if len(f) != 6 {
+			return nil
+		}
+		if session == nil {
+			session, conn = sess.New(nil)
+		}
+		lvl, ok := map[string]fastlog.LogLevel{"debug": fastlog.LevelDebug, "info": fastlog.LevelInfo, "error": fastlog.LevelError}[f[2]]
+		id, e1 := strconv.Atoi(f[3])
+		seq, e2 := strconv.Atoi(f[4])
+		db := core.UnHex(f[5])
+		if !ok || e1 != nil || e2 != nil || len(db) != 16 {
+			return nil
+		}
+		old := packet.Logger.Level()
+		packet.Logger.SetLevel(lvl)
+		defer packet.Logger.SetLevel(old)
+		dst6 := netip.AddrFrom16(*(*[16]byte)(db))
+		src6 := sess.HostLLA.Addr()
+		conn.Take()
+		var err error
+		switch f[1] {
+		case "echo4":
+			err = session.ICMP4SendEchoRequest(packet.Addr{MAC: sess.HostMAC, IP: sess.HostIP4}, packet.Addr{MAC: sess.RouterMAC, IP: sess.RouterIP4}, uint16(id), uint16(seq))
+		case "echo6":
+			err = session.ICMP6SendEchoRequest(packet.Addr{MAC: sess.HostMAC, IP: src6}, packet.Addr{MAC: sess.RouterMAC, IP: dst6}, uint16(id), uint16(seq))
+		case "na":
+			err = session.ICMP6SendNeighborAdvertisement(packet.Addr{MAC: sess.HostMAC, IP: src6}, packet.Addr{MAC: sess.RouterMAC, IP: dst6}, packet.Addr{MAC: sess.HostMAC, IP: src6})
+		case "ns":
+			err = session.ICMP6SendNeighbourSolicitation(packet.Addr{MAC: sess.HostMAC, IP: src6}, packet.Addr{MAC: sess.RouterMAC, IP: dst6}, dst6)
+		default:
+			return nil
+		}
+		fr := conn.Take()
+		if err != nil || len(fr) != 1 {
+			return nil
+		}
+		b := fr[0]
+		bad := ""
+		switch {
+		case f[1] == "echo4" && len(b) >= 42:
+			if !verifies(b[14:34]) {
+				bad = "IPv4 header checksum does not verify"
+			} else if !verifies(b[34:]) {
+				bad = "ICMPv4 checksum does not verify"
+			}
+		case f[1] != "echo4" && len(b) >= 58:
+			ln := len(b) - 54
+			psh := append(append(append([]byte{}, b[22:38]...), b[38:54]...), byte(ln>>24), byte(ln>>16), byte(ln>>8), byte(ln), 0, 0, 0, 58)
+			if !verifies(append(psh, b[54:]...)) {
+				bad = "ICMPv6 checksum does not verify with its pseudo header"
+			}
+		default:
+			bad = "frame too short"
+		}
+		return &core.Case{Line: line, Impl: fmt.Sprintf("frame %d bytes bad=%q", len(b), bad), Cmp: func(string, string) bool { return true },
+			Oracle: func() (string, string) {
+				if bad != "" {
+					return "frame emitted by the exported send function " + f[1] + " at log level " + f[2] + ": " + bad, ""
 				}
 				return "", ""
 			}}
@@ -349,6 +416,16 @@ func Gen(c *core.Ctx) {
 		m4 := c.RandBytes(8 + c.Rnd.Intn(64))
 		m4[2], m4[3] = 0, 0
 		add(c, "icmp4", "icmp4cks "+core.Hex(m4))
+	}
+	// the exported send functions at every log level; destinations of every class, so that consecutive sends leave
+	// different bytes behind in the pooled frame buffer
+	dsts := [][]byte{{0xff, 2, 0, 0, 0, 0, 0, 0, 0, 0, 0, 0, 0, 0, 0, 1}, {0xff, 2, 0, 0, 0, 0, 0, 0, 0, 0, 0, 0, 0, 0, 0, 2},
+		append([]byte{0xfe, 0x80, 0, 0, 0, 0, 0, 0}, c.RandBytes(8)...), append([]byte{0xff, 2, 0, 0, 0, 0, 0, 0, 0, 0, 0, 1, 0xff}, c.RandBytes(3)...),
+		append([]byte{0x20, 1, 0xd, 0xb8}, c.RandBytes(12)...)}
+	for i, n := 0, c.Scale(600, 20000); i < n; i++ {
+		kind := []string{"echo4", "echo6", "na", "ns"}[c.Rnd.Intn(4)]
+		lvl := []string{"debug", "info", "error"}[c.Rnd.Intn(3)]
+		add(c, "send-"+lvl, fmt.Sprintf("send %s %s %d %d %s", kind, lvl, c.Rnd.Intn(65536), c.Rnd.Intn(65536), core.Hex(dsts[c.Rnd.Intn(len(dsts))])))
 	}
 }
 
